@@ -540,7 +540,10 @@ class Effects:
                         arg = kw.value
                 if arg is None:
                     continue
-                out |= self.classify(arg, cfi, depth + 1, seen | {key})
+                for r in self.classify(arg, cfi, depth + 1, seen | {key}):
+                    if r.kind in SHARED and " <- " not in r.why:
+                        r = Root(r.kind, f"{r.why} <- passed as `{name}` by {cfi.qualname}: `{short(call, 60)}`", r.dockey, r.obj)
+                    out.add(r)
             if not out and not seen:
                 out |= ann_roots or {Root("PARAM", f"{f.qualname}({name})")}
         r = frozenset(out)
@@ -1427,20 +1430,36 @@ def _default_role_reset(corpus: Corpus, ef: Effects, rep: Report) -> None:
         return
     cfg = get_cfg(fi)
     rst = cfg.stmt_of(rcs[0])
-    resets = []
-    for n in walk_local(fi.node, into_lambdas=False):
-        ok = False
+    def is_reset(n: ast.AST, f: FunctionInfo) -> bool:
         if isinstance(n, ast.Delete) and any(_is_default_role_place(t) for t in n.targets):
-            ok = True
+            return True
         if isinstance(n, ast.Call) and isinstance(n.func, ast.Attribute) and n.func.attr == "pop" and (dotted(n.func.value) or "").endswith("_roles") and n.args and isinstance(n.args[0], ast.Constant) and n.args[0].value == "":
-            ok = True
+            return True
         if isinstance(n, ast.Call) and (dotted(n.func) or "").rsplit(".", 1)[-1] in ("unregister_role",):
-            ok = True
-        if isinstance(n, ast.Assign) and _is_default_role_place(n.targets[0]) and _restore_info(fi, n) is not None:
-            ok = True
-        if ok:
-            resets.append(n)
-    good = [n for n in resets if _in_finally(n) is not None or cfg.postdominates(cfg.stmt_of(n), rst) or any(cfg.postdominates(g_, rst) for g_ in cfg.dom().get(cfg.stmt_of(n), set()) if isinstance(g_, ast.If) and "_roles" in unparse(g_.test))]
+            return True
+        if isinstance(n, ast.Assign) and _is_default_role_place(n.targets[0]) and _restore_info(f, n) is not None:
+            return True
+        return False
+
+    def runs_whenever(n: ast.AST, f: FunctionInfo, anchor) -> bool:
+        """``n`` is in a finally, or executes on every normal path after ``anchor`` (modulo an `if '' in roles._roles` guard)."""
+        c_ = get_cfg(f)
+        st_ = c_.stmt_of(n)
+        if _in_finally(n) is not None or c_.postdominates(st_, anchor):
+            return True
+        return any(c_.postdominates(g_, anchor) for g_ in c_.dom().get(st_, set()) if isinstance(g_, ast.If) and "_roles" in unparse(g_.test))
+
+    good = []
+    for n in walk_local(fi.node, into_lambdas=False):
+        if is_reset(n, fi) and runs_whenever(n, fi, rst):
+            good.append(n)
+        elif isinstance(n, ast.Call):
+            # one level of helper: a package function that performs the reset on every path
+            for t in ef.g.flat_targets(ef.g.resolve_call(n, fi)):
+                if t.is_lambda or t.fq == fi.fq:
+                    continue
+                if any(is_reset(m, t) and runs_whenever(m, t, "ENTRY") for m in walk_local(t.node, into_lambdas=False)) and runs_whenever(n, fi, rst):
+                    good.append(n)
     if good:
         rep.ok("C15.R1", k, fi.module.site(good[0]), "the default role installed by a `default-role` directive is removed/restored after the render, as docutils' rST parser does")
     else:
@@ -1566,13 +1585,16 @@ def r2_pairing(corpus: Corpus, rep: Report, tier: str):
                             if fw:
                                 rep.ok("C15.R2", k, site, f"removes the key stored by `{short(fw[0].node, 50)}` in the try body")
                             else:
-                                rep.violation("C15.R2", k, site, f"finally removes `{keytxt}` but the try body never stores it")
+                                rep.listed("C15.R2", k, site, f"finally removes `{keytxt}`; no store of it is visible in the try body (set by a callee?) - not judged")
                             continue
-                        fws = [s for s in body_sites + before_sites if s.how.startswith("mutator:") and s.how.split(":")[1] in INVERSE[m] and s.written == recv]
+                        fws_any = [s for s in body_sites + before_sites if s.how.startswith("mutator:") and s.how.split(":")[1] in INVERSE[m] and s.written == recv]
+                        fws = fws_any
                         if m != "pop":
                             fws = [s for s in fws if [unparse(a) for a in s.node.args] == [unparse(a) for a in undo.args]]
                         if fws:
                             rep.ok("C15.R2", k, site, f"undoes `{short(fws[0].node, 50)}`")
+                        elif not fws_any:
+                            rep.listed("C15.R2", k, site, "no forward operation on this object is visible in or before the try (done by a callee?) - not judged")
                         else:
                             rep.violation("C15.R2", k, site, f"finally calls {recv}.{m}(...) but no matching {'/'.join(INVERSE[m])} on the same object with the same argument precedes it: what is removed is not what was added")
                     if isinstance(n, ast.Delete):
@@ -1583,7 +1605,7 @@ def r2_pairing(corpus: Corpus, rep: Report, tier: str):
                             if fw:
                                 rep.ok("C15.R2", k, fi.module.site(n), "removes what the try body installed")
                             else:
-                                rep.violation("C15.R2", k, fi.module.site(n), f"finally deletes `{txt}` which the try body never sets")
+                                rep.listed("C15.R2", k, fi.module.site(n), f"finally deletes `{txt}`; no store of it is visible in the try body - not judged")
     rep.expect_min("C15.R2", 6, "restore/undo statements in finally blocks (figure-md 1, include mock 7, substitution 1)")
 
 RULES = [r1_effect_classification, r2_pairing, r3_pure_caches, r4_freshness, r5_reset_completeness, r6_document_scoped, r7_nondeterminism]
@@ -1638,7 +1660,7 @@ def mutants(corpus: Corpus):
         save = find_stmt(f, lambda n: isinstance(n, ast.Assign) and isinstance(n.value, ast.Call) and dotted(n.value.func) == "copy")
         addst = find_stmt(f, lambda n: isinstance(n, ast.Expr) and isinstance(n.value, ast.Call) and unparse(n.value.func).endswith("enable_extensions.add"))
         if save is not None and addst is not None:
-            add("c15-figure-md-copy-dropped", "C15.R2", f, splice(f.module.src, save.value, unparse(save.value.args[0])), "enable_extensions", True)
+            add("c15-figure-md-copy-dropped", "C15.R2", f, splice(f.module.src, save.value, unparse(save.value.args[0])), "enable_extensions")
             ind2 = indent_of(f, addst)
             add("c15-figure-md-save-after-mutation", "C15.R2", f, _multi_splice(f.module.src, [(save, "pass"), (addst, _seg(f, addst) + "\n" + ind2 + _seg(f, save))]), "enable_extensions")
     f = base.func("DocutilsRenderer.run_directive")
@@ -1707,5 +1729,66 @@ def mutants(corpus: Corpus):
     f = sx.func("SphinxRenderer.render_math_block_label")
     st = find_stmt(f, lambda n: isinstance(n, ast.Assign) and unparse(n.targets[0]) == "label")
     if st is not None:
-        add("c15-uuid-fallback-label", "C15.R7", f, splice(sx.src, st.value, unparse(st.value) + " or str(uuid4())"), "render_math_block_label")
+        add("c15-uuid-fallback-label", "C15.R7", f, splice(sx.src, st, "import uuid\n" + indent_of(f, st) + "label = " + unparse(st.value) + " or str(uuid.uuid4())"), "render_math_block_label")
+    else:
+        out.append(("c15-uuid-fallback-label", "label assignment in render_math_block_label not found"))
+    # --- classes of edits found by the seeded defects ------------------------------------------
+    # (a) temporary config mutation through an alias, undone by an inverse operation instead of a restore
+    f = corpus.func("sphinx_ext.directives:FigureMarkdown.run")
+    tr = find_stmt(f, lambda n: isinstance(n, ast.Try) and n.finalbody)
+    save = find_stmt(f, lambda n: isinstance(n, ast.Assign) and isinstance(n.value, ast.Call) and dotted(n.value.func) == "copy")
+    addst = find_stmt(f, lambda n: isinstance(n, ast.Expr) and isinstance(n.value, ast.Call) and unparse(n.value.func).endswith("enable_extensions.add"))
+    if tr is not None and save is not None and addst is not None and isinstance(save.targets[0], ast.Name):
+        nm = save.targets[0].id
+        add(
+            "c15-config-set-mutated-through-alias-and-discarded",
+            "C15.R1",
+            f,
+            _multi_splice(f.module.src, [(save.value, unparse(save.value.args[0])), (addst, f"{nm}.add('html_image')"), (tr.finalbody[0], f"{nm}.discard('html_image')")]),
+            "discard",
+        )
+    else:
+        out.append(("c15-config-set-mutated-through-alias-and-discarded", "figure-md save/add/restore shape not found"))
+    # (b) hand-made module-level cache in a function the renderer calls (keyed on fewer inputs than it reads)
+    inv = corpus.mod("inventory")
+    f = inv.func("fetch_inventory")
+    rets = sorted([n for n in walk_local(f.node) if isinstance(n, ast.Return) and n.value is not None], key=lambda n: n.lineno)
+    if rets:
+        edits = [(r.value, f"_FETCHED.setdefault(uri, {_seg(f, r.value)})") for r in rets]
+        add("c15-module-level-inventory-cache", "C15.R1", f, _multi_splice(inv.src, edits) + "\n_FETCHED: dict = {}\n", "_FETCHED")
+        add("c15-module-level-inventory-cache-subscript-store", "C15.R1", f, _prepend_stmt(f, "_LAST_FETCH[0] = uri") + "\n_LAST_FETCH: list = [None]\n", "_LAST_FETCH")
+    # (c) validation (normalising validators store on the instance) run against the shared config instead of the copy
+    f = corpus.func("config.main:merge_file_level")
+    c = find_node(f, lambda n: isinstance(n, ast.Call) and dotted(n.func) == "validate_field" and n.args and isinstance(n.args[0], ast.Name))
+    cp = find_stmt(f, lambda n: isinstance(n, ast.Assign) and unparse(n.value) == "config.copy()")
+    if c is not None and cp is not None and c.args[0].id == cp.targets[0].id:
+        add("c15-validate-against-global-config", "C15.R1", f, splice(f.module.src, c.args[0], "config"), "setattr(inst")
+    else:
+        out.append(("c15-validate-against-global-config", "validate_field(<copy>, ...) call in merge_file_level not found"))
+    # --- repaired defects, each fix reverted ----------------------------------------------------
+    f = base.func("DocutilsRenderer.run_directive")
+    st = find_stmt(f, lambda n: isinstance(n, ast.Assign) and unparse(n.targets[0]) == "directive_class" and isinstance(n.value, ast.Call) and dotted(n.value.func) == "type")
+    if st is not None:
+        ind = indent_of(f, st)
+        add(
+            "c15-revert-1895664-include-option-spec-extended-in-place",
+            "C15.R1",
+            f,
+            splice(base.src, st, ('directive_class.option_spec["relative-images"] = directives.flag\n' + ind + 'directive_class.option_spec["relative-docs"] = directives.path\n' + ind + 'directive_class.option_spec["heading-offset"] = directives.nonnegative_int')),
+            "option_spec",
+            True,
+        )
+    else:
+        out.append(("c15-revert-1895664-include-option-spec-extended-in-place", "per-call Include subclass in run_directive not found"))
+    f = corpus.func("parsers.docutils_:Parser.parse")
+    st = find_stmt(f, lambda n: isinstance(n, ast.Expr) and isinstance(n.value, ast.Call) and unparse(n.value.func).endswith("_roles.pop"))
+    if st is not None:
+        add("c15-revert-f7c70e9-default-role-not-reset", "C15.R1", f, splice(f.module.src, st, "pass"), "reset after render")
+    else:
+        out.append(("c15-revert-f7c70e9-default-role-not-reset", "roles._roles.pop('', None) in Parser.parse not found"))
+    f = sx.func("SphinxRenderer._random_label")
+    body = [x for x in f.node.body if not (isinstance(x, ast.Expr) and isinstance(x.value, ast.Constant))]
+    if body:
+        ind = indent_of(f, body[0])
+        add("c15-revert-6901ce7-uuid4-equation-label", "C15.R7", f, _multi_splice(sx.src, [(body[0], "from uuid import uuid4\n\n" + ind + "return str(uuid4())")] + [(x, "pass") for x in body[1:-1]] + ([(body[-1], "pass")] if len(body) > 1 else [])), "_random_label")
     return out
